@@ -32,6 +32,26 @@ fn prim_result(parts: &[&str]) -> String {
                 h.hmac(&b(parts[4]), &b(parts[5]), &mut out);
                 format!("ok {}", hex(&out[..h.hash_len()]))
             },
+            "hashseq" => {
+                // ONE hash object with pending input: `reset()` must discard it, and `hmac` must not see it
+                let Some(mut h) = hash_choice(parts[3]).and_then(|c| r.resolve_hash(&c)) else { return "none".into() };
+                let (pending, data, key) = (b(parts[4]), b(parts[5]), b(parts[6]));
+                let mut out = [0u8; 64];
+                h.reset();
+                h.input(&pending);
+                h.reset();
+                h.input(&data);
+                h.result(&mut out);
+                let a = hex(&out[..h.hash_len()]);
+                h.input(&pending);
+                let mut out2 = [0u8; 64];
+                h.hmac(&key, &data, &mut out2);
+                let bb = hex(&out2[..h.hash_len()]);
+                h.input(&pending);
+                let (mut o1, mut o2, mut o3) = ([0u8; 64], [0u8; 64], [0u8; 64]);
+                h.hkdf(&key[..key.len().min(h.hash_len())], &data, 2, &mut o1, &mut o2, &mut o3);
+                format!("ok {a} {bb} {} {}", hex(&o1[..h.hash_len()]), hex(&o2[..h.hash_len()]))
+            },
             "hmacseq" => {
                 // several HMACs on ONE hash object (a wrapper that caches keyed state between calls must not let an
                 // earlier key influence a later result)
@@ -152,6 +172,10 @@ pub fn gen_prim(run: &mut Run, seed: u64, thorough: bool, light: bool) {
             for klen in [0, 1, block - 1, block] {
                 prim(&mut sc, format!("prim {res} hmac {h} {} {}", hex(&r.bytes(klen)), hex(&r.bytes(50))));
             }
+            for _ in 0..(if light { 1 } else { 4 }) {
+                let (a, bq, c) = (r.below(200), r.below(200), r.below(block + 1));
+                prim(&mut sc, format!("prim {res} hashseq {h} {} {} {}", hex(&r.bytes(1 + a)), hex(&r.bytes(bq)), hex(&r.bytes(c))));
+            }
             // one hash object, related keys: the same key twice, a prefix of the previous key, the previous key
             // extended, zero-padded variants, and unrelated keys in between
             for _ in 0..(if light { 1 } else { 6 }) {
@@ -192,6 +216,9 @@ pub fn gen_prim(run: &mut Run, seed: u64, thorough: bool, light: bool) {
             if !light {
                 lens.push((65519, 32));
                 lens.push((1000, 64));
+                // the wrappers are public trait objects: lengths beyond what a Noise message can carry must round-trip too
+                lens.push(([65520usize, 65527, 65535][r.below(3)], 0));
+                lens.push(([65536usize, 65551, 70000][r.below(3)], 16));
             }
             for (pl, al) in lens {
                 let key = r.bytes(32);
